@@ -30,6 +30,7 @@ theorem InvT.pres_d7 {cfg : Cfg} {s s' : State} {l : Label} (hB : InvB s) (hC : 
   have hc9 := hC.waitingEarly
   have hd1 := hD.dlRoot
   have hd2 := hD.dlSub
+  have hd2s := hD.dlStream
   have he2 := hE.orchWaiting
   have he8 := hE.werrNotGone
   have he9 := hE.coreWatcherSt
@@ -45,7 +46,7 @@ theorem InvT.pres_d7 {cfg : Cfg} {s s' : State} {l : Label} (hB : InvB s) (hC : 
     intro r; cases r <;> simp [Root.kind]
   have hkS : ∀ r : Root, r.kind = .simple → r ≠ .startupCleanup ∧ r ≠ .coreWatcher ∧ r ≠ .orchestrator := by
     intro r; cases r <;> simp [Root.kind]
-  obtain ⟨h1, h2, h3, h4, h5, h6, h7, h8, h9⟩ := hI
+  obtain ⟨h1, h2, h3, h4, h5, h6, h7, h8, h9, h10, h11⟩ := hI
   cases l <;> simp only [step] at h
   all_goals (first | (exfalso; simp [Label.grpD, Label.grp] at hg; done) | skip)
   all_goals (repeat' (split at h))
@@ -53,14 +54,14 @@ theorem InvT.pres_d7 {cfg : Cfg} {s s' : State} {l : Label} (hB : InvB s) (hC : 
   all_goals (cases h)
   all_goals (first | (exfalso; simp only [Label.grpD, *] at hg; done) | (exfalso; simp only [Label.grpD, *] at hg; omega) | skip)
   all_goals (try simp only [allRootsEnded_iff, anyRootEnded_iff, othersEnded_iff, hungLive_false_iff,
-    noLiveWorkerOf_iff, noLiveSub_iff] at *)
-  all_goals (refine ⟨?_, ?_, ?_, ?_, ?_, ?_, ?_, ?_, ?_⟩)
-  all_goals (first | exact h1 | exact h2 | exact h3 | exact h4 | exact h5 | exact h6 | exact h7 | exact h8 | exact h9 | skip)
+    noLiveWorkerOf_iff, noLiveSub_iff, noLiveStream_iff] at *)
+  all_goals (refine ⟨?_, ?_, ?_, ?_, ?_, ?_, ?_, ?_, ?_, ?_, ?_⟩)
+  all_goals (first | exact h1 | exact h2 | exact h3 | exact h4 | exact h5 | exact h6 | exact h7 | exact h8 | exact h9 | exact h10 | exact h11 | skip)
   all_goals (try simp only [kind_orchestrator_iff, kind_killer_iff, kind_flagChecker_iff, kind_ultimate_iff,
     kind_startupCleanup_iff, kind_coreWatch_iff] at *)
   all_goals (try subst_vars)
   all_goals (try dsimp only)
-  all_goals (grind (splits := 30) [upd, Root.kind, TS.active, TS.live, TS.ended, TS.isStopping, failTS, cancelSubs,
+  all_goals (grind (splits := 30) [upd, Root.kind, TS.active, TS.live, TS.ended, TS.isStopping, failTS, cancelSubs, cancelPingers,
     cancelRoots, cancelRootsV, Pend.ts, scFailPath, scEarly, G, grace])
 
 end Kopf.C20
